@@ -2,6 +2,11 @@ package parser
 
 import "github.com/woodsbury/jmespath/internal/lexer"
 
+// projectionPrecedence is the binding power used to parse the right-hand side
+// of a wildcard or slice projection: the projection extends over every
+// selector that binds tighter than a flatten.
+const projectionPrecedence = 9
+
 func precedence(t lexer.TokenType) int {
 	switch t {
 	case lexer.PipeToken:
@@ -28,11 +33,10 @@ func precedence(t lexer.TokenType) int {
 		return 7
 	case lexer.FlattenToken:
 		return 8
-	case lexer.ObjectWildcardToken:
-		return 9
 	case lexer.FilterToken:
 		return 10
-	case lexer.DotToken:
+	case lexer.DotToken,
+		lexer.ObjectWildcardToken:
 		return 11
 	case lexer.NotToken:
 		return 12
